@@ -151,6 +151,15 @@ def make_reaction(rng, policy=None):
             a, b2 = rng.sample(ns, 2)
             if "aam" in x.nodes[a]:
                 x.nodes[b2]["aam"] = x.nodes[a]["aam"]
+    if rng.random() < 0.12:
+        # stale idx_map attributes on the inputs (as the halves of split_its of an earlier ITS carry them): get_its reads
+        # ids from the graphs, never from this attribute
+        for x in (g, h):
+            ns = list(x.nodes)
+            for nd in ns:
+                if rng.random() < 0.7:
+                    x.nodes[nd]["idx_map"] = (rng.choice(ns + [55]), rng.choice(ns + [-3]))
+        policy = policy + "+idx_map"
     g0, h0 = g, h
     g, sg, _ = gens.reid(rng, g0)
     h, sh, _ = gens.reid(rng, h0)
